@@ -634,19 +634,26 @@ class Interp:
                 if s.finalbody:
                     self.block(s.finalbody, *env)
         elif isinstance(s, ast.With):
-            # model objects only: `__enter__` (if modelled) gives the bound
-            # value, the exit handler is not modelled (no exceptions are
-            # swallowed by the stand-ins)
-            for it in s.items:
-                v = self.ev(it.context_expr, *env)
-                if isinstance(v, Namespace) and "__enter__" in v.__dict__:
-                    v = v.__dict__["__enter__"]()
-                elif not isinstance(v, Namespace):
-                    raise AnalysisError(
-                        f"model: with-statement on `{txt(it.context_expr)}`")
-                if it.optional_vars is not None:
-                    self.assign(it.optional_vars, v, *env)
-            self.block(s.body, *env)
+            # model objects only (see enter_context / exit_context); the
+            # contexts are left in reverse order, also when the body raises
+            # or returns; no exception is swallowed by the stand-ins
+            entered = []
+            try:
+                for it in s.items:
+                    cm = self.ev(it.context_expr, *env)
+                    try:
+                        v = enter_context(cm)
+                    except AnalysisError:
+                        raise AnalysisError(
+                            "model: with-statement on "
+                            f"`{txt(it.context_expr)}`")
+                    entered.append(cm)
+                    if it.optional_vars is not None:
+                        self.assign(it.optional_vars, v, *env)
+                self.block(s.body, *env)
+            finally:
+                for cm in reversed(entered):
+                    exit_context(cm)
         elif isinstance(s, ast.Continue):
             raise _Continue()
         elif isinstance(s, ast.Break):
@@ -1123,3 +1130,80 @@ def module_level(tree, globs, interp, assigns=True):
                                                     None)
             except (AnalysisError, ModelRaise):
                 pass
+
+
+# ----------------------------------------------------------------------
+# context managers of the model
+
+def enter_context(cm):
+    """value bound by ``with cm as value`` for a model object"""
+    if hasattr(type(cm), "model_enter"):
+        return cm.model_enter()
+    if isinstance(cm, Namespace):
+        if "__enter__" in cm.__dict__:
+            return cm.__dict__["__enter__"]()
+        return cm
+    raise AnalysisError(f"model: {type(cm).__name__} is not a modelled "
+                        "context manager")
+
+
+def exit_context(cm):
+    if hasattr(type(cm), "model_exit"):
+        cm.model_exit()
+    elif isinstance(cm, Namespace) and "__exit__" in cm.__dict__:
+        cm.__dict__["__exit__"](None, None, None)
+
+
+class ModelExitStack:
+    """contextlib.ExitStack: enter_context / callback / push / close;
+    everything registered is left in reverse order"""
+    model_object = True
+
+    def __init__(self):
+        self.todo = []
+
+    def model_enter(self):
+        return self
+
+    def model_exit(self):
+        self.close()
+
+    def enter_context(self, cm):
+        v = enter_context(cm)
+        self.todo.append(lambda: exit_context(cm))
+        return v
+
+    def callback(self, fn, *a, **k):
+        self.todo.append(lambda: fn(*a, **k))
+        return fn
+
+    def push(self, cm):
+        self.todo.append(lambda: exit_context(cm))
+        return cm
+
+    def pop_all(self):
+        new = ModelExitStack()
+        new.todo, self.todo = self.todo, []
+        return new
+
+    def close(self):
+        while self.todo:
+            self.todo.pop()()
+
+
+class ModelNullContext:
+    """contextlib.nullcontext(enter_result)"""
+    model_object = True
+
+    def __init__(self, enter_result=None):
+        self.enter_result = enter_result
+
+    def model_enter(self):
+        return self.enter_result
+
+    def model_exit(self):
+        pass
+
+
+CONTEXTLIB = Namespace("contextlib", ExitStack=ModelExitStack,
+                       nullcontext=ModelNullContext)
